@@ -415,12 +415,14 @@ func TestC08(t *testing.T) {
 			}
 		}
 	}
-	// the same through a real Node used as a router, with the dialect
-	{
-		rt, err := newRouter(&dialect.Dialect{Version: 3, Messages: dmsgs}, gomavlib.V2, nil, nil)
+	// the same through a real Node used as a router, with the dialect; the version the router uses for what it originates
+	// itself (OutVersion) has no say in how a frame it forwards is encoded
+	for _, routerVersion := range []gomavlib.Version{gomavlib.V2, gomavlib.V1} {
+		rt, err := newRouter(&dialect.Dialect{Version: 3, Messages: dmsgs}, routerVersion, nil, nil)
 		if err != nil {
 			t.Fatal(err)
 		}
+		rep.Count("router_out_versions", 1)
 		wires := make([][]byte, len(forRouter))
 		for i := range forRouter {
 			wires[i] = forRouter[i].wire
@@ -472,7 +474,7 @@ func TestC08(t *testing.T) {
 
 	// (3) edit + FixFrame
 	for _, withKey := range []bool{false, true} {
-		for _, mode := range []string{"edit-message", "edit-header", "forward-then-edit", "no-edit", "edit-signature-fields"} {
+		for _, mode := range []string{"edit-message", "edit-header", "forward-then-edit", "no-edit", "edit-signature-fields", "fan-out-copies"} {
 			keyRaw := r.Bytes(32)
 			inKeyRaw := keyRaw
 			if mode == "no-edit" {
@@ -512,6 +514,30 @@ func TestC08(t *testing.T) {
 						ff.SignatureLinkID ^= 0x5A
 						ff.SignatureTimestamp += 12345
 					}
+				case "fan-out-copies":
+					// two frames derived from the received one by value copy, each edited and fixed for its own link BEFORE either
+					// is written: both are this node's frames and both validate at their next hop
+					var cp frame.Frame
+					switch ff := fr.(type) {
+					case *frame.V1Frame:
+						c := *ff
+						c.SystemID ^= 0x21
+						cp = &c
+						ff.ComponentID ^= 0x33
+					case *frame.V2Frame:
+						c := *ff
+						c.SystemID ^= 0x21
+						cp = &c
+						ff.ComponentID ^= 0x33
+					}
+					if err := n.FixFrame(cp); err != nil && fixErr == nil {
+						fixErr = err
+					}
+					if err := n.FixFrame(fr); err != nil && fixErr == nil {
+						fixErr = err
+					}
+					_ = n.WriteFrameExcept(nil, cp)
+					return
 				case "forward-then-edit":
 					// forward the frame as received first (this encodes it in place), wait until every channel
 					// writer has put it on the wire (the frame object is shared with them), then re-stamp and fix
@@ -532,7 +558,7 @@ func TestC08(t *testing.T) {
 				}
 			}
 			perIn := 1
-			if mode == "forward-then-edit" {
+			if mode == "forward-then-edit" || mode == "fan-out-copies" {
 				perIn = 2
 			}
 			rt, err = newRouter(&dialect.Dialect{Version: 3, Messages: dmsgs}, gomavlib.V2, outKey, edit)
@@ -569,7 +595,7 @@ func TestC08(t *testing.T) {
 			// promises checksum validity only, so it goes to a next hop without InKey.
 			var fixedOuts, plainOuts [][]byte
 			for i, o := range outs {
-				if perIn == 2 && i%2 == 0 {
+				if perIn == 2 && i%2 == 0 && mode != "fan-out-copies" {
 					plainOuts = append(plainOuts, o)
 				} else {
 					fixedOuts = append(fixedOuts, o)
